@@ -29,3 +29,9 @@ register_meta('C17', level='proof', explanation='culture routing case split + mo
               assumptions=['culture codes are lower-case-able ASCII of the form word or word-word; other shapes (digits, spaces) are not covered',
                            'cache modelled with two arbitrary pre-existing consistent entries; factory with two constructors',
                            'a registered constructor builds a model for exactly its (type, culture) and the given options (ghost origin)'])
+
+register_meta('C02', level='proof', explanation='frame (effect) obligations over all functions + model cache contracts; lemma from frames to schedules is pen-and-paper',
+              trusted=['effects/checker.py: syntactic frame analysis (alias taint, name-based call graph)'],
+              assumptions=['no persistent writes => results are functions of arguments and immutable models (pen-and-paper lemma, not machine checked)',
+                           'regex module C-level caches are transparent',
+                           'no thread is started by the proof; interleavings are not explored'])
